@@ -13,6 +13,7 @@ open Just
 
 inductive Tk where
   | str (lexeme : String)
+  | strAdj (lexeme : String)   -- a string token written directly after the identifier `x`, no white space between
   | bt (lexeme : String)
   | ident (name : String)
   | plus | slash | andand | barbar | lparen | rparen | comma | lbrace | rbrace
@@ -23,10 +24,23 @@ inductive Tk where
 
 def opTk (o : CondOp) : Tk := .op o
 
+/-- The tokens of a string literal as it is displayed (`Display for StringLiteral`).  The payload of
+`Expr.str` is, in this model, the literal as displayed: the lexeme of its string token, preceded by `x`
+when the literal is shell-expanded (`x'~/dir'`); such a literal is two tokens, the identifier `x` and,
+directly after it, the string token (src/parser.rs `next_is_shell_expanded_string` looks at the very next
+token, white space included: `x 'a'` is the variable `x` and then a string). -/
+def litTokens (l : String) : List Tk :=
+  match l.toList with
+  | 'x' :: cs => [.ident "x", .strAdj (String.ofList cs)]
+  | _ => [.str l]
+
+/-- the displayed form of a shell-expanded literal whose string token is `s` -/
+def xLit (s : String) : String := String.ofList ('x' :: s.toList)
+
 mutual
 /-- `Display for Expression` -/
 def printE : Expr → List Tk
-  | .str s => [.str s]
+  | .str s => litTokens s
   | .var n => [.ident n]
   | .backtick s => [.bt s]
   | .call f args => [.ident f, .lparen] ++ printArgs args ++ [.rparen]
@@ -44,7 +58,7 @@ def printE : Expr → List Tk
 def printElse : Expr → List Tk
   | .cond a o b t e =>
     [.ident "if"] ++ printE a ++ [.op o] ++ printE b ++ [.lbrace] ++ printE t ++ [.rbrace, .ident "else"] ++ printElse e
-  | .str s => [.lbrace, .str s, .rbrace]
+  | .str s => [.lbrace] ++ litTokens s ++ [.rbrace]
   | .var n => [.lbrace, .ident n, .rbrace]
   | .backtick s => [.lbrace, .bt s, .rbrace]
   | .call f args => [.lbrace] ++ ([.ident f, .lparen] ++ printArgs args ++ [.rparen]) ++ [.rbrace]
@@ -160,6 +174,8 @@ def parseValue : Nat → List Tk → Option (Expr × List Tk)
     match ts with
     | .str s :: r => some (.str s, r)
     | .bt s :: r => some (.backtick s, r)
+    | .strAdj s :: r => some (.str s, r)     -- the `x` before it was consumed as a name, not by `parse_value`
+    | .ident "x" :: .strAdj s :: r => some (.str (xLit s), r)
     | .ident "assert" :: r =>
       match r with
       | .lparen :: r1 =>
